@@ -75,6 +75,10 @@ def _contradictory(ix, alt):
                     return True
         if tag(atom) == "bool" and outcome in (True, False) and bool(payload(atom)[0]) != outcome:
             return True
+        if tag(atom) == "op" and payload(atom)[0] in ("is_ok", "is_some") and outcome in (True, False) and kids(atom):
+            v = ix.inline(kids(atom)[0])
+            if tag(v) == "agg" and payload(v)[1] in ("Ok", "Some", "Err", "None") and (payload(v)[1] in ("Ok", "Some")) != outcome:
+                return True    # `?` on a value that is a literal Err / Ok once the helper's outcome is known
     return False
 
 
